@@ -48,6 +48,7 @@ TECHNIQUE = "static analysis: symbolic field-wiring extraction over resolved HIR
 def run(ctx):
     _run_main(ctx)
     _shared_r5(ctx)
+    _round6(ctx)
 
 
 def _run_main(ctx):
@@ -269,3 +270,11 @@ def _shared_r5(ctx):
         A.include(ctx, r, 'c02', 'R02.1', pick=(':field:',))
         A.include(ctx, r, 'c03', 'R03.1', pick=(':done',))
         A.include(ctx, r, 'c03', 'R03.4', pick=('',))
+
+
+def _round6(ctx):
+    """Rules that are necessary conditions of this property too (found by seeding round 6)."""
+    from rules import arms as A
+    with ctx.rule('R12.6', 'the emitting chain has no refusing step: the method is serialized into the handle buffer unconditionally and handed over as one Send (shared with C01, C04)', floor=7) as r:
+        A.include(ctx, r, 'c01', 'R01.5', pick=('make_buf', 'one-push-own-channel'))
+        A.include(ctx, r, 'c04', 'R04.4', pick=('call',))
